@@ -284,6 +284,12 @@ var objKeyPrefix = map[string]string{"appchain_mgr": "chain:", "service_mgr": "s
 // higher-priority operation on the same object (which the proposal's own status then shows).
 func (gm *govModel) checkOpenProposalStatus(h uint64, curSt map[string]string, touched map[string]bool) {
 	s := gm.s
+	if gm.tainted == nil {
+		gm.tainted = map[string]bool{}
+	}
+	if s.cfg.AuditOps {
+		gm.checkNodeBindings(h, curSt)
+	}
 	views := map[string]*proposalView{}
 	openOn := map[string]int{} // object key -> proposals open for voting on it
 	for _, id := range gm.open {
@@ -312,6 +318,13 @@ func (gm *govModel) checkOpenProposalStatus(h uint64, curSt map[string]string, t
 		}
 		key := pre + pv.ObjId
 		got, seen := curSt[key]
+		if pv.Typ == "service_mgr" && openOn[key] >= 2 && !gm.tainted[key] {
+			// two proposals open for voting on one service: only the appchain's unpause does that (it restores a suspended
+			// proposal of the service although another one is open, DESIGN 7.4); what this service does from here on is a
+			// consequence of that cascade, not judged
+			s.res.Count("probe_service_with_two_open_proposals")
+			gm.tainted[key] = true
+		}
 		if !seen || got == "<none>" || gm.tainted[key] {
 			continue
 		}
@@ -415,4 +428,53 @@ func (s *scn) applySvcCycle(st CStep) {
 		decide(s.govSubmit(ga, constant.AppchainMgrContractAddr, "activate-chain/govadmin/"+c.id, c.id, "ActivateAppchain", S(c.id), S("reason")))
 	}
 	s.res.Count("svc_cycle")
+}
+
+// checkNodeBindings: an audit node that is being bound (status binding) is held by the open registration or binding
+// proposal of one audit administrator; it leaves that status by the conclusion of that proposal or by an operation on
+// the node itself - not because some other administrator, whose record still names the node from an earlier, rejected
+// binding, is logged out.
+func (gm *govModel) checkNodeBindings(h uint64, curSt map[string]string) {
+	s := gm.s
+	if gm.bindingBy == nil {
+		gm.bindingBy = map[string]string{}
+	}
+	// which open proposal binds which node
+	open := map[string]*proposalView{}
+	for _, id := range gm.open {
+		pv, _ := gm.proposal(id)
+		if pv == nil {
+			continue
+		}
+		open[id] = pv
+		if pv.Typ != "role_mgr" || (pv.EventType != "register" && pv.EventType != "bind") || pv.Status != "proposed" || !s.isAuditObject(pv.ObjId) {
+			continue
+		}
+		rcs := s.reps[0].viewCall(viewTx(s.users[0], constant.RoleContractAddr, "GetRoleInfoById", pb.String(pv.ObjId)))
+		var rv struct {
+			NodeAccount string `json:"node_account"`
+		}
+		if len(rcs) == 1 && rcs[0] != nil && rcs[0].Status == pb.Receipt_SUCCESS && json.Unmarshal(rcs[0].Ret, &rv) == nil && rv.NodeAccount != "" {
+			if _, known := gm.bindingBy["node:"+rv.NodeAccount]; !known && curSt["node:"+rv.NodeAccount] == "binding" {
+				gm.bindingBy["node:"+rv.NodeAccount] = id
+			}
+		}
+	}
+	for key, pid := range gm.bindingBy {
+		pv := open[pid]
+		if pv == nil || pv.Status != "proposed" {
+			delete(gm.bindingBy, key) // concluded or suspended: the proposal no longer holds the node
+			continue
+		}
+		switch curSt[key] {
+		case "binding", "logouting", "updating":
+			continue // held, or under an operation of its own
+		}
+		s.res.Count("probe_node_released_while_binding_pending")
+		if !gm.tainted[key] {
+			s.vio("C16", "node-released-while-its-binding-is-pending", curSt[key], "after block %d: audit node %s has status %s although proposal %s (%s of audit administrator %s), which put it into 'binding', is still open for voting and nothing was submitted on the node itself", h, key[5:], curSt[key], pid, pv.EventType, pv.ObjId)
+			gm.tainted[key] = true
+		}
+		delete(gm.bindingBy, key)
+	}
 }
